@@ -121,3 +121,28 @@ fn(DM + "_DispatcherMiddleware.__init__", params={"mounts": "obj pyvc:Mounts"},
    ensures=[("C20.dispatch.init", "same(self.mounts, mounts)", "C20")], props=("C20",))
 fn(RM + ".__init__", params={"app": APP, "host": "opt str"},
    ensures=[("C20.redirect.init", "same(self.app, app) and self.host == host", "C20")], props=("C20",))
+
+# ------------------------------------------------------------------------------ lifespan fan-out
+# C20 "fans lifespan out so that startup/shutdown complete only when every mount has completed":
+# send(path, send, message) of both dispatcher classes marks the mount's own flag and forwards the
+# completion exactly when -- with that mark -- every flag of the table is set.  The tables are
+# str -> bool maps of any size (pyvc:FlagTable); all(table.values()) is the predicate
+# all_flags_true(has, val), defined by instances (models.flags_all).  What stays with the bounded
+# stand-in standins/dispatcher_lifespan.py: _handle_lifespan itself (one task and one queue per
+# mount, every lifespan message handed to every mount, the tables initialised for every mount).
+FSEND = "callable{record:asgi_sent;yields:1}"
+for _DC in ("AsyncioDispatcherMiddleware", "TrioDispatcherMiddleware"):
+    cls(DM + _DC, fields={"mounts": "obj pyvc:Mounts", "startup_complete": "obj pyvc:FlagTable", "shutdown_complete": "obj pyvc:FlagTable"}, immutable=["mounts"])
+    fn(DM + _DC + ".send", params={"path": "str", "send": FSEND, "message": "dict{type:str}"},
+       ensures=[
+           ("C20.fanout.startup", "implies(message['type'] == 'lifespan.startup.complete', n_emitted('asgi_sent') == (1 if flags_all_marked(old(self.startup_complete), path) else 0) "
+            "and implies(n_emitted('asgi_sent') == 1, emitted('asgi_sent')[0]['type'] == 'lifespan.startup.complete'))", "C20"),
+           ("C20.fanout.shutdown", "implies(message['type'] == 'lifespan.shutdown.complete', n_emitted('asgi_sent') == (1 if flags_all_marked(old(self.shutdown_complete), path) else 0) "
+            "and implies(n_emitted('asgi_sent') == 1, emitted('asgi_sent')[0]['type'] == 'lifespan.shutdown.complete'))", "C20"),
+           ("C20.fanout.other-messages", "implies(message['type'] != 'lifespan.startup.complete' and message['type'] != 'lifespan.shutdown.complete', n_emitted('asgi_sent') == 0)", "C20"),
+           # the mount's own completion is recorded (stated for the calls that do not suspend: after a
+           # forward the tables are whatever the other mounts' calls have made of them meanwhile)
+           ("C20.fanout.marks-own", "implies(not yielded() and message['type'] == 'lifespan.startup.complete', flag(self.startup_complete, path)) "
+            "and implies(not yielded() and message['type'] == 'lifespan.shutdown.complete', flag(self.shutdown_complete, path))", "C20"),
+       ],
+       props=("C20",))
